@@ -74,7 +74,7 @@ func genInput(t *rapid.T, label string, maxLen int) []int {
 }
 
 func genParam(t *rapid.T, label string, n int, min int) int {
-	cands := []int{0, 1, n - 1, n, n + 1, rapid.IntRange(0, 12).Draw(t, label+"rnd")}
+	cands := []int{0, 1, n - 1, n, n + 1, rapid.IntRange(0, 12).Draw(t, label+"rnd"), -1, -3}
 	v := rapid.SampledFrom(cands).Draw(t, label)
 	if v < min {
 		v = min
@@ -112,7 +112,9 @@ func genSingle(t *rapid.T) Single {
 	c.Mask = rapid.IntRange(0, 255).Draw(t, "mask")
 	c.Classes = genClasses(t)
 	switch c.Comb {
-	case "First", "Last":
+	case "First":
+		c.N = genParam(t, "n", n, -3) // a negative count means "none", in the iterator and the stream version alike
+	case "Last":
 		c.N = genParam(t, "n", n, 0)
 	case "Chunk":
 		c.N = genParam(t, "chunk", n, 1)
@@ -195,6 +197,9 @@ func ref(c Single) (outs [][]int, need func(j int) int) {
 		lim := n
 		if c.N < lim {
 			lim = c.N
+		}
+		if lim < 0 {
+			lim = 0
 		}
 		return outs, func(j int) int {
 			if j > lim {
